@@ -10,9 +10,12 @@ Reason(ev) ==
        IF ev.res = "err" THEN (IF exp = <<>> /\ ev.nopid THEN "ok" ELSE "reader-fails-on-a-valid-stream")
        ELSE IF ~CuesOK(ev.post, exp) THEN "cues-differ-from-the-transmitted-pages"
        ELSE "ok"
+\* implementation layer: the page buffer's control state at every packet (hook ttx.packet) is the model's
+ImplPredicts(ev) == ev.res \notin {"ok", "err"} \/ ev.hooks = ImplHooks(ev.st, ev.op)
 Init == l = 1
 Step == /\ l <= Len(Trace)
         /\ LET r == Reason(Trace[l]) IN IF r = "ok" THEN TRUE ELSE PrintT(<<"V", l, Trace[l].n, "C06", r>>)
+        /\ IF ImplPredicts(Trace[l]) THEN TRUE ELSE PrintT(<<"V", l, Trace[l].n, "DRIFT", "page-buffer-control-state">>)
         /\ l' = l + 1
 Spec == Init /\ [][Step]_l
 Accepted == TLCGet("stats").diameter - 1 = Len(Trace)
